@@ -543,8 +543,10 @@ fn random_history(rng: &mut Rng, names: &[String], len: usize) -> Vec<Op> {
                 }
                 Op::Pop
             }
-            36..=51 => Op::GetOrNew(n, Sc::Global, g.muts(rng)),
-            52..=63 => Op::GetOrNew(n, Sc::Local, g.muts(rng)),
+            36..=38 => Op::GetOrNew(n, Sc::Global, vec![Mut::ReadOnly(g.loc())]),
+            39..=51 => Op::GetOrNew(n, Sc::Global, g.muts(rng)),
+            52..=54 => Op::GetOrNew(n, Sc::Local, vec![Mut::ReadOnly(g.loc())]),
+            55..=63 => Op::GetOrNew(n, Sc::Local, g.muts(rng)),
             64..=79 => {
                 if top_volatile {
                     Op::GetOrNew(n, Sc::Volatile, g.muts(rng))
@@ -586,16 +588,24 @@ fn alphabet(depth_tag: u64) -> Vec<Op> {
 /// All histories of exactly `depth` operations over the alphabet that stay in
 /// the domain (no pop of the base context; a `Scope::Volatile` get_or_new
 /// without a volatile context on top ends the history).
-fn enumerate(w: &mut CasesWriter, names: &[String], depth: usize) {
+fn enumerate(
+    w: &mut CasesWriter,
+    names: &[String],
+    depth: usize,
+    alphabet: fn(u64) -> Vec<Op>,
+    stream: &'static str,
+) {
     fn go(
         w: &mut CasesWriter,
         names: &[String],
         depth: usize,
         ops: &mut Vec<Op>,
         kinds: &mut Vec<bool>,
+        alphabet: fn(u64) -> Vec<Op>,
+        stream: &'static str,
     ) {
         if ops.len() == depth {
-            emit(w, names, ops, false, "exhaustive");
+            emit(w, names, ops, false, stream);
             return;
         }
         for op in alphabet(ops.len() as u64 + 1) {
@@ -603,14 +613,14 @@ fn enumerate(w: &mut CasesWriter, names: &[String], depth: usize) {
                 Op::Pop => {
                     let Some(k) = kinds.pop() else { continue };
                     ops.push(op);
-                    go(w, names, depth, ops, kinds);
+                    go(w, names, depth, ops, kinds, alphabet, stream);
                     ops.pop();
                     kinds.push(k);
                 }
                 Op::Push(c) => {
                     kinds.push(*c == Ctx::Volatile);
                     ops.push(op);
-                    go(w, names, depth, ops, kinds);
+                    go(w, names, depth, ops, kinds, alphabet, stream);
                     ops.pop();
                     kinds.pop();
                 }
@@ -618,19 +628,91 @@ fn enumerate(w: &mut CasesWriter, names: &[String], depth: usize) {
                     // documented panic; only worth one case per prefix and kind
                     if matches!(&op, Op::GetOrNew(_, _, ms) if matches!(ms[0], Mut::Export(_))) {
                         ops.push(op);
-                        emit(w, names, ops, false, "exhaustive");
+                        emit(w, names, ops, false, stream);
                         ops.pop();
                     }
                 }
                 _ => {
                     ops.push(op);
-                    go(w, names, depth, ops, kinds);
+                    go(w, names, depth, ops, kinds, alphabet, stream);
                     ops.pop();
                 }
             }
         }
     }
-    go(w, names, depth, &mut vec![], &mut vec![]);
+    go(w, names, depth, &mut vec![], &mut vec![], alphabet, stream);
+}
+
+/// The alphabet of the second enumeration: variables that are made read-only
+/// WITHOUT ever getting a value (`readonly v`, `typeset -r w`), then unset in
+/// each scope and assigned.
+fn ro_alphabet(depth_tag: u64) -> Vec<Op> {
+    let n = "a".to_string();
+    let mut l = vec![Op::Push(Ctx::Regular(vec![])), Op::Push(Ctx::Volatile), Op::Pop];
+    for sc in [Sc::Global, Sc::Local, Sc::Volatile] {
+        l.push(Op::GetOrNew(n.clone(), sc, vec![Mut::ReadOnly(100 + depth_tag)]));
+        l.push(Op::Unset(n.clone(), sc));
+    }
+    for sc in [Sc::Global, Sc::Local] {
+        l.push(Op::GetOrNew(
+            n.clone(),
+            sc,
+            vec![Mut::Assign(Val::Scalar(format!("{depth_tag}")), Some(depth_tag))],
+        ));
+    }
+    l
+}
+
+/// Random histories biased towards value-less read-only variables in several
+/// contexts (also hiding one another), followed by unset / assign.
+fn ro_history(rng: &mut Rng, names: &[String], len: usize) -> Vec<Op> {
+    let mut g = Gen { next_loc: 0 };
+    let mut kinds: Vec<bool> = vec![];
+    let mut ops = vec![];
+    while ops.len() < len {
+        let top_volatile = kinds.last().copied().unwrap_or(false);
+        let n = rng.pick(names).clone();
+        let sc = match rng.below(if top_volatile { 3 } else { 2 }) {
+            0 => Sc::Global,
+            1 => Sc::Local,
+            _ => Sc::Volatile,
+        };
+        let any_sc = *rng.pick(&[Sc::Global, Sc::Local, Sc::Volatile]);
+        let op = match rng.below(100) {
+            0..=21 => Op::GetOrNew(n, sc, vec![Mut::ReadOnly(g.loc())]),
+            22..=27 => Op::GetOrNew(n, sc, vec![Mut::ReadOnly(g.loc()), Mut::Export(true)]),
+            28..=31 => Op::GetOrNew(n, sc, vec![]),
+            32..=51 => Op::Unset(n, any_sc),
+            52..=66 => {
+                let l = g.loc();
+                Op::GetOrNew(n, sc, vec![Mut::Assign(Val::Scalar(l.to_string()), Some(l))])
+            }
+            67..=69 => {
+                let l = g.loc();
+                Op::GetOrNew(
+                    n,
+                    sc,
+                    vec![Mut::Assign(Val::Scalar(l.to_string()), Some(l)), Mut::ReadOnly(g.loc())],
+                )
+            }
+            70..=79 => {
+                kinds.push(false);
+                Op::Push(Ctx::Regular(vec![]))
+            }
+            80..=87 => {
+                kinds.push(true);
+                Op::Push(Ctx::Volatile)
+            }
+            _ => {
+                if kinds.pop().is_none() {
+                    continue;
+                }
+                Op::Pop
+            }
+        };
+        ops.push(op);
+    }
+    ops
 }
 
 fn s(x: &str) -> String {
@@ -752,6 +834,59 @@ fn corpus() -> Vec<(Vec<String>, Vec<Op>)> {
                 Op::GetOrNew(a(), Sc::Global, vec![asg("u", 6)]),
                 Op::Pop,
                 Op::Pop,
+            ],
+        ),
+        // read-only WITHOUT a value (`readonly v`): unset in each scope and
+        // assignment are refused exactly as for a variable with a value
+        (
+            vec![a()],
+            vec![
+                Op::GetOrNew(a(), Sc::Global, vec![Mut::ReadOnly(1)]),
+                Op::Unset(a(), Sc::Volatile),
+                Op::Unset(a(), Sc::Local),
+                Op::Unset(a(), Sc::Global),
+                Op::GetOrNew(a(), Sc::Global, vec![asg("1", 2)]),
+                Op::GetOrNew(a(), Sc::Local, vec![asg("2", 3)]),
+            ],
+        ),
+        // `f() { typeset -r w; unset w; w=2; }`: a value-less read-only local
+        (
+            vec![a()],
+            vec![
+                Op::Push(Ctx::Volatile),
+                Op::Push(Ctx::Regular(vec![])),
+                Op::GetOrNew(a(), Sc::Local, vec![Mut::ReadOnly(1)]),
+                Op::Unset(a(), Sc::Volatile),
+                Op::Unset(a(), Sc::Local),
+                Op::Unset(a(), Sc::Global),
+                Op::GetOrNew(a(), Sc::Global, vec![asg("2", 2)]),
+                Op::Pop,
+                Op::Pop,
+                Op::GetOrNew(a(), Sc::Global, vec![asg("3", 3)]),
+            ],
+        ),
+        // a value-less read-only local hiding a global (with and without a value),
+        // and a value-less read-only global hidden by a local
+        (
+            vec![a(), s("b")],
+            vec![
+                Op::GetOrNew(a(), Sc::Global, vec![asg("g", 1)]),
+                Op::GetOrNew(s("b"), Sc::Global, vec![Mut::ReadOnly(2)]),
+                Op::Push(Ctx::Regular(vec![])),
+                Op::GetOrNew(a(), Sc::Local, vec![Mut::ReadOnly(3)]),
+                Op::GetOrNew(s("b"), Sc::Local, vec![asg("l", 4)]),
+                Op::Unset(a(), Sc::Local),
+                Op::Unset(a(), Sc::Global),
+                Op::Unset(s("b"), Sc::Global),
+                Op::Unset(s("b"), Sc::Local),
+                Op::GetOrNew(a(), Sc::Global, vec![asg("x", 5)]),
+                Op::Push(Ctx::Volatile),
+                Op::GetOrNew(a(), Sc::Volatile, vec![asg("t", 6), Mut::Export(true)]),
+                Op::Unset(a(), Sc::Volatile),
+                Op::Pop,
+                Op::Pop,
+                Op::Unset(a(), Sc::Global),
+                Op::GetOrNew(s("b"), Sc::Global, vec![asg("y", 7)]),
             ],
         ),
         // documented panic
@@ -1082,6 +1217,60 @@ impl SGen<'_> {
     fn cmds(&mut self, n: usize, depth: usize) -> Vec<Cmd> {
         (0..n).map(|_| self.cmd(depth)).collect()
     }
+    /// A script about a variable that is read-only but has NO value
+    /// (`readonly v`, `typeset -r w` in a function), possibly hiding or hidden by
+    /// another variable of the same name, then unset / assigned in various ways.
+    fn ro_script(&mut self) -> Vec<Cmd> {
+        let v = self.name();
+        let sc = |x: &str| Val::Scalar(x.to_string());
+        let mut cs = vec![];
+        match self.rng.below(5) {
+            0 => cs.push(Cmd::Assign(vec![(v.clone(), sc("g"))])),
+            1 => cs.push(Cmd::Export(v.clone(), Some(sc("g")))),
+            2 => cs.push(Cmd::Readonly(v.clone(), None)),
+            3 => cs.push(Cmd::Export(v.clone(), None)),
+            _ => {}
+        }
+        cs.push(Cmd::Probe(vec![]));
+        let in_function = self.rng.chance(2, 3);
+        let decl = match self.rng.below(if in_function { 5 } else { 3 }) {
+            0 => Cmd::Readonly(v.clone(), None),
+            1 => Cmd::Typeset { temps: vec![], global: true, export: false, readonly: true, name: v.clone(), value: None },
+            2 | 3 => Cmd::Typeset { temps: vec![], global: false, export: false, readonly: true, name: v.clone(), value: None },
+            _ => Cmd::Typeset { temps: vec![], global: false, export: true, readonly: true, name: v.clone(), value: None },
+        };
+        let action = |g: &mut Self| match g.rng.below(11) {
+            0..=2 => Cmd::Unset(v.clone()),
+            3..=4 => Cmd::Assign(vec![(v.clone(), sc("1"))]),
+            5 => Cmd::Probe(vec![(v.clone(), sc("t"))]),
+            6 => Cmd::Typeset { temps: vec![], global: g.rng.chance(1, 2), export: false, readonly: false, name: v.clone(), value: Some(sc("2")) },
+            7 => Cmd::Export(v.clone(), Some(sc("3"))),
+            8 => Cmd::Read(vec![], v.clone(), "7".to_string()),
+            9 => Cmd::Exec(vec![(v.clone(), sc("e"))]),
+            _ => Cmd::Special(vec![(v.clone(), sc("s"))]),
+        };
+        if in_function {
+            let mut body = vec![decl, Cmd::Probe(vec![])];
+            for _ in 0..1 + self.rng.below(2) {
+                body.push(action(self));
+                body.push(Cmd::Probe(vec![]));
+            }
+            let temps = if self.rng.chance(1, 4) { vec![(v.clone(), sc("t"))] } else { vec![] };
+            cs.push(Cmd::Call(temps, body, vec![]));
+            cs.push(Cmd::Probe(vec![]));
+            cs.push(action(self));
+            cs.push(Cmd::Probe(vec![]));
+        } else {
+            cs.push(decl);
+            cs.push(Cmd::Probe(vec![]));
+            for _ in 0..1 + self.rng.below(2) {
+                cs.push(action(self));
+                cs.push(Cmd::Probe(vec![]));
+            }
+        }
+        cs
+    }
+
     fn cmd(&mut self, depth: usize) -> Cmd {
         loop {
             return match self.rng.below(100) {
@@ -1116,7 +1305,7 @@ impl SGen<'_> {
                     Cmd::Export(self.name(), v)
                 }
                 78..=79 => {
-                    let v = if self.rng.chance(1, 2) { Some(self.scalar()) } else { None };
+                    let v = if self.rng.chance(1, 3) { Some(self.scalar()) } else { None };
                     Cmd::Readonly(self.name(), v)
                 }
                 80..=87 => Cmd::Unset(self.name()),
@@ -1193,6 +1382,52 @@ fn script_corpus() -> Vec<Vec<Cmd>> {
             Cmd::Probe(vec![]),
         ],
         vec![Cmd::Readonly(a(), Some(sc("r"))), Cmd::Unset(a()), Cmd::Probe(vec![])],
+        // read-only WITHOUT a value: `readonly v; unset v; v=1; vars`
+        vec![Cmd::Readonly(a(), None), Cmd::Probe(vec![]), Cmd::Unset(a()), Cmd::Assign(vec![(a(), sc("1"))]), Cmd::Probe(vec![])],
+        vec![Cmd::Readonly(a(), None), Cmd::Probe(vec![(a(), sc("t"))]), Cmd::Probe(vec![])],
+        vec![Cmd::Readonly(a(), None), Cmd::Read(vec![], a(), s("7")), Cmd::Probe(vec![]),
+             Cmd::Typeset { temps: vec![], global: false, export: false, readonly: false, name: a(), value: Some(sc("2")) },
+             Cmd::Probe(vec![]), Cmd::Special(vec![(a(), sc("s"))]), Cmd::Probe(vec![])],
+        // `f() { typeset -r w; unset w; w=2; }`
+        vec![
+            Cmd::Call(vec![], vec![
+                Cmd::Typeset { temps: vec![], global: false, export: false, readonly: true, name: a(), value: None },
+                Cmd::Probe(vec![]), Cmd::Unset(a()), Cmd::Assign(vec![(a(), sc("2"))]), Cmd::Probe(vec![])], vec![]),
+            Cmd::Probe(vec![]),
+        ],
+        vec![
+            Cmd::Call(vec![], vec![
+                Cmd::Typeset { temps: vec![], global: false, export: false, readonly: true, name: a(), value: None },
+                Cmd::Assign(vec![(a(), sc("2"))]), Cmd::Probe(vec![])], vec![]),
+            Cmd::Probe(vec![]),
+        ],
+        // a value-less read-only local hiding a global: the unset is refused,
+        // after the return the global is back and can be unset and assigned
+        vec![
+            Cmd::Assign(vec![(a(), sc("g"))]),
+            Cmd::Call(vec![], vec![
+                Cmd::Typeset { temps: vec![], global: false, export: false, readonly: true, name: a(), value: None },
+                Cmd::Probe(vec![]),
+                Cmd::Typeset { temps: vec![], global: false, export: false, readonly: false, name: a(), value: Some(sc("2")) },
+                Cmd::Read(vec![], a(), s("7")),
+                Cmd::Probe(vec![])], vec![]),
+            Cmd::Probe(vec![]), Cmd::Unset(a()), Cmd::Probe(vec![]), Cmd::Assign(vec![(a(), sc("n"))]), Cmd::Probe(vec![]),
+        ],
+        vec![
+            Cmd::Assign(vec![(a(), sc("g"))]),
+            Cmd::Call(vec![], vec![
+                Cmd::Typeset { temps: vec![], global: false, export: false, readonly: true, name: a(), value: None },
+                Cmd::Unset(a()), Cmd::Probe(vec![])], vec![]),
+            Cmd::Probe(vec![]),
+        ],
+        // a value-less read-only global hidden by a local: unset inside is refused
+        vec![
+            Cmd::Readonly(a(), None),
+            Cmd::Call(vec![], vec![
+                Cmd::Typeset { temps: vec![], global: false, export: false, readonly: false, name: a(), value: Some(sc("l")) },
+                Cmd::Probe(vec![]), Cmd::Unset(a()), Cmd::Probe(vec![])], vec![]),
+            Cmd::Probe(vec![]),
+        ],
         // read on a temporarily assigned variable: the value read stays, exported
         vec![
             Cmd::Assign(vec![(s("b"), sc("0"))]),
@@ -1223,7 +1458,9 @@ fn main() {
 
     // bounded-exhaustive on one name
     let one = vec![s("a")];
-    enumerate(&mut w, &one, if args.thorough() { 4 } else { 2 });
+    enumerate(&mut w, &one, if args.thorough() { 4 } else { 2 }, alphabet, "exhaustive");
+    // ... and on value-less read-only variables
+    enumerate(&mut w, &one, if args.thorough() { 4 } else { 3 }, ro_alphabet, "exhaustive_ro");
 
     // random histories on 2-3 names
     let n = args.scale(700, 12000);
@@ -1239,6 +1476,15 @@ fn main() {
         let ops = random_history(&mut r, &names, len);
         emit(&mut w, &names, &ops, r.chance(1, 4), "random");
     }
+    // random histories about value-less read-only variables
+    let n = args.scale(400, 6000);
+    for k in 0..n {
+        let mut r = rng.fork(2_000_000 + k as u64);
+        let names = vec![s("a"), s("b")];
+        let len = 3 + r.below(if args.thorough() { 14 } else { 10 });
+        let ops = ro_history(&mut r, &names, len);
+        emit(&mut w, &names, &ops, r.chance(1, 4), "random_ro");
+    }
     // stream 2: scripts
     for mut cs in script_corpus() {
         cs.push(Cmd::Probe(vec![]));
@@ -1253,13 +1499,22 @@ fn main() {
         cs.push(Cmd::Probe(vec![]));
         emit_script(&mut w, &cs, "script");
     }
+    // scripts about value-less read-only variables
+    let n = args.scale(150, 1500);
+    for k in 0..n {
+        let mut r = rng.fork(3_000_000 + k as u64);
+        let mut g = SGen { rng: &mut r };
+        let mut cs = g.ro_script();
+        cs.push(Cmd::Probe(vec![]));
+        emit_script(&mut w, &cs, "script_ro");
+    }
     w.finish(
         "stream 1: histories of VariableSet operations through the public API (guards), \
-         bounded-exhaustive on one name + random on 2-3 names; non-trivial = a volatile context \
+         bounded-exhaustive on one name (full alphabet; alphabet of value-less read-only variables) + random on 2-3 names (general; biased to value-less read-only variables hiding one another, then unset/assign); non-trivial = a volatile context \
          was used and (something was made read-only or two contexts were stacked); \
          distinct = by operation sequence.  stream 2: generated scripts (temporary assignments before \
          regular / special built-ins, functions, external utilities; typeset, export, readonly, unset, \
-         set --) run by the real shell on the simulated OS, observed by a probe built-in and by the \
+         set --, read; a sub-stream about value-less read-only variables) run by the real shell on the simulated OS, observed by a probe built-in and by the \
          environment of executed programs; non-trivial = has a function call, a temporary assignment \
          and at least three observations; distinct = by script text",
     );
